@@ -217,7 +217,7 @@ def classify(ctx, execs, rejected, tag, summary):
         what = f"{len(items)} execution(s) rejected at {ev} [{', '.join(why)}]; smallest: sections={cfg} event={json.dumps(bad)[:260]}"
         summary.append({"signature": sig, "count": len(items), "witness": cfg, "replay": rp})
         if sig in ctx.known:
-            ctx.known_finding(sig, ctx.known[sig] + f" -- still fails: {len(items)} execution(s) in '{tag}', smallest sections={cfg} ({rp})")
+            ctx.known_finding(sig, ctx.known[sig] + f" -- still fails: {len(items)} execution(s), smallest sections={cfg} ({rp})")
         else:
             ctx.violation(what, rp)
 
@@ -228,18 +228,19 @@ def run(ctx):
 
     # ---- 1. design: the transcribed algorithms refine the contract;  2. TLC enumerates section tables ----------
     small = dict(aligns="AlignsSmall", bufs="BufsSmall", vsizes="VSizesSmall", text="TextSmall")
-    runs = [
-        ("d_two",  dict(max_user=2), 6),
-        ("d_tab",  dict(max_user=2, orders="OrdersWide", at="ATStd", **small), 3),
-    ]
+    tiny = dict(aligns="AlignsTiny", bufs="BufsSmall", vsizes="VSizesSmall", text="TextSmall")
     if q:
-        runs += [("d_copy", dict(max_user=2, aligns="AlignsTiny", bufs="BufsSmall", vsizes="VSizesSmall", text="TextSmall", copy=True), 4),
-                 ("d_three", dict(max_user=3, **small), 4)]
+        runs = [("d_two", dict(max_user=2, text="TextSmall"), 6),
+                ("d_tab", dict(max_user=2, orders="OrdersTab", at="ATStd", **small), 3),
+                ("d_copy", dict(max_user=2, copy=True, **tiny), 4),
+                ("d_three", dict(max_user=3, **tiny), 3)]
     else:
-        runs += [("d_copy", dict(max_user=2, copy=True, **small), 4),
+        runs = [("d_two", dict(max_user=2), 8),
+                ("d_tab", dict(max_user=2, orders="OrdersWide", at="ATStd", **small), 6),
+                ("d_copy", dict(max_user=2, copy=True, **small), 4),
                  ("d_three", dict(max_user=3, aligns="AlignsStd", bufs="BufsSmall", vsizes="VSizesStd", text="TextSmall"), 12),
                  ("d_four", dict(max_user=4, **small), 12),
-                 ("d_copy3", dict(max_user=3, aligns="AlignsTiny", bufs="BufsSmall", vsizes="VSizesSmall", text="TextSmall", at="ATStd", copy=True), 8)]
+                 ("d_copy3", dict(max_user=3, at="ATStd", copy=True, **tiny), 8)]
     nsim = 1500 if q else 30000
     jobs = [(name, kw, w, {}) for name, kw, w in runs]
     # the algorithm exactly as written in the pinned tree (every section becomes `prev`): a hint, not a verdict
@@ -304,6 +305,7 @@ def run(ctx):
 
     # ---- 4. trace validation ------------------------------------------------------------------------------
     summary, nrec, moved = [], 0, 0
+    all_execs, all_rej = [], []
     for tag, path in (("scripts", tr), ("random", tr2)):
         execs, rejected = validate_trace(ctx, path, tag)
         ctx.log(f"{tag}: {len(execs)} executions, {sum(len(e) for e in execs)} events, {len({x[0] for x in rejected})} executions rejected")
@@ -316,10 +318,12 @@ def run(ctx):
                     ctx.distinct.add((key, r_["size"], r_["flags"], r_["r"]))
                 elif r_.get("e") == "Flatten2" and not r_.get("same", True):
                     moved += 1
-        classify(ctx, execs, rejected, tag, summary)
+        all_rej += [(xi + len(all_execs), idx, ev, why) for (xi, idx, ev, why) in rejected]
+        all_execs += execs
         if execs:
             big = max(execs[: 400], key=len)
             ctx.add_sample({"source": tag, "sections": fmt_cfg(describe(big)), "events": [x for x in big if x.get("e") in ("Flatten", "CodeSize")][:3]})
+    classify(ctx, all_execs, all_rej, "trace", summary)
     ctx.evaluations = nrec
     ctx.extra["rejections"] = summary
     ctx.extra["second_flatten_changed_layout"] = f"{moved} executions (informational: codeholder.h forbids a second flatten())"
